@@ -62,6 +62,43 @@ func init() {
 				spl = append(spl, ext{z, randIdx(z), randIdx(z), z, rng.Int63n(pow2(z)) - pow2(z)/2})
 			}
 			H, V := l[0].h, l[0].v
+			if rng.Intn(12) == 0 {
+				// a zoom argument outside its range is an error whatever the list is — also for the EMPTY list (the check of a
+				// loop-invariant argument must not sit inside the loop over the IDs); a valid zoom with an empty list is not
+				badZ := []int64{-1, 36, 37, -5, 1 << 40}[rng.Intn(5)]
+				badQ := []int64{0, 32, -1, 36}[rng.Intn(4)]
+				okz := int64(rng.Intn(36))
+				okq := int64(1 + rng.Intn(31))
+				pick := func(bad, good int64) int64 {
+					if rng.Intn(3) == 0 {
+						return good
+					}
+					return bad
+				}
+				switch rng.Intn(10) {
+				case 0:
+					do("chgExt", "[]", s(pick(badZ, okz)), s(pick(badZ, okz)))
+				case 1:
+					do("chgSp", "[]", s(pick(badZ, okz)))
+				case 2:
+					do("mrgExt", "[]", s(pick(badZ, okz)), s(pick(badZ, okz)))
+				case 3:
+					do("mrgSp", "[]", s(pick(badZ, okz)))
+				case 4:
+					do("e2qv", "[]", s(pick(badQ, okq)), s(pick(badZ, okz)))
+				case 5:
+					do("s2qv", "[]", s(pick(badQ, okq)), s(pick(badZ, okz)))
+				case 6:
+					do("e2qa", "[]", s(pick(badQ, okq)), s(pick(badZ, okz)), "25", "0")
+				case 7:
+					do("qv2ext", "[]", s(pick(badZ, okz)), s(pick(badZ, okz)))
+				case 8:
+					do("qv2sp", "[]", s(pick(badZ, okz)))
+				default:
+					do("e2qvh", "[]", s(pick(badQ, okq)), s(pick(badZ, okz)), fbits(500), fbits(0), fl(500), fl(0))
+				}
+				continue
+			}
 			switch rng.Intn(19) {
 			case 0:
 				do("chgExt", join(corrupt(ids(l))), s(H), s(V))
